@@ -45,6 +45,13 @@ def run(tier):
     ops = 1500 if thorough else 300
     sl = ",".join(str(s) for s in seeds)
     pa, pb = os.path.join(wd, "a.ndjson"), os.path.join(wd, "b.ndjson")
+    # fourth process, started now and collected at the end: simulations created several seconds of real time before
+    # they run (a wall-clock budget, a timeout or an "age" read from the host's clock would show here)
+    import subprocess
+    pl = os.path.join(wd, "l.ndjson")
+    vlib.build_harness()
+    longp = subprocess.Popen([vlib.VH, "repro", "run", "--harness", "dst/calm,redis_dst/uniform", "--seeds", str(seeds[0]), "--ops", str(ops), "--tag", "L",
+                              "--slow", "5600", "--out", pl], cwd=vlib.VERIF, stdout=subprocess.DEVNULL, stderr=subprocess.DEVNULL)
     vlib.vh(["repro", "run", "--seeds", sl, "--ops", ops, "--tag", "A", "--reps", 2, "--out", pa])
     vlib.vh(["repro", "run", "--seeds", sl, "--ops", ops, "--tag", "B", "--order", "reverse", "--out", pb])
     # third process: the harnesses that do I/O against simulated stores, with real time passing between blocks
@@ -52,14 +59,21 @@ def run(tier):
     slow_h = "streaming/calm,streaming/moderate,streaming/chaos,compaction/calm,compaction/aggressive,compaction/chaos"
     slow_seeds = ",".join(str(s) for s in seeds[:6 if thorough else 2])
     vlib.vh(["repro", "run", "--harness", slow_h, "--seeds", slow_seeds, "--ops", ops, "--tag", "S", "--slow", 130, "--out", pc])
+    try:
+        longp.wait(timeout=600)
+    except subprocess.TimeoutExpired:
+        longp.kill()
+        raise vlib.ToolError("the long-pause process did not finish")
     runs = load(pa)
     runs.update(load(pb))
     runs.update(load(pc))
+    if os.path.exists(pl):
+        runs.update(load(pl))
     keys = sorted({(h, s) for (h, s, _) in runs})
     recs, raw = [], {}
     steps = 0
     for (h, s) in keys:
-        for rel, ta, tb in (("same_process", "A1", "A2"), ("other_process", "A1", "B"), ("other_process_slow", "A1", "S")):
+        for rel, ta, tb in (("same_process", "A1", "A2"), ("other_process", "A1", "B"), ("other_process_slow", "A1", "S"), ("other_process_long_pause", "A1", "L")):
             if (h, s, tb) not in runs:
                 continue
             a, b = runs.get((h, s, ta), []), runs.get((h, s, tb), [])
@@ -97,4 +111,6 @@ def run(tier):
                         "Debug renderings are compared after sorting the members of every {...} group",
                         "two processes differ in hash seeds, allocator state and the order in which the harnesses ran; wall-clock dependence shows only if it changes a logged value"]
     os.remove(pa); os.remove(pb); os.remove(pc)
+    if os.path.exists(pl):
+        os.remove(pl)
     return rep.finish()
